@@ -40,14 +40,15 @@ def applyRedirs (cfg : Cfg) : Slots → List Redir → Slots × Bool
       applyRedirs cfg { s' with opened := s.opened ++ [(to, mode)] } rest
 
 /-- one stage: (how it ends, files opened, here-string feed) given its base slots -/
-def specStage (cfg : Cfg) (cmd : Command) (base : Slots) (hsPipe : Nat) (shellT : Table) : (ChildEnd × List (Str × Nat)) × Option (Nat × Str) :=
+def specStage (cfg : Cfg) (cmd : Command) (base : Slots) (hsPipe : Nat) (shellT : Table) (hsFails : Bool) : (ChildEnd × List (Str × Nat)) × Option (Nat × Str) :=
   let text := (cmd.redirectFrom.map (fun (x : Tok) => x.2)).getD []
   let s0? : Option Slots :=
     if cmd.isFrom then
       if cfg.canRead text then some { base with s0 := some { obj := .file text 0 } } else none
     else if cmd.isHere then some { base with s0 := some { obj := .pipeR hsPipe } }
     else some base
-  let fed := if cmd.isHere then some (hsPipe, text) else none
+  let fed := if cmd.isHere ∧ !hsFails then some (hsPipe, text) else none
+  let s0? := if cmd.isHere ∧ hsFails then none else s0?
   match s0? with
   | none => ((.died 1, []), none)
   | some s =>
@@ -59,7 +60,7 @@ def specStage (cfg : Cfg) (cmd : Command) (base : Slots) (hsPipe : Nat) (shellT 
         else if cfg.found cmd.name then .exec cmd.argv s'.table
         else .notFound cmd.argv s'.table, s'.opened), fed)
 
-def specStages (cfg : Cfg) (t : Table) (m np : Nat) (capture : Bool) (capOut capErr : Nat) :
+def specStages (cfg : Cfg) (t : Table) (m np : Nat) (capture : Bool) (capOut capErr : Nat) (hsFail : List Nat) :
     Nat → List Command → Nat → List (Nat × ChildEnd × List (Str × Nat)) × List (Nat × Str) × Nat
   | _, [], hs => ([], [], hs)
   | i, c :: rest, hs =>
@@ -67,20 +68,27 @@ def specStages (cfg : Cfg) (t : Table) (m np : Nat) (capture : Bool) (capOut cap
       { s0 := if i > 0 then some { obj := .pipeR (np + i - 1) } else t 0,
         s1 := if i < m then some { obj := .pipeW (np + i) } else if capture then some { obj := .pipeW capOut } else t 1,
         s2 := if i = m ∧ capture then some { obj := .pipeW capErr } else t 2 }
-    let (ch, fed) := specStage cfg c base hs t
-    let (chs, feds, hs') := specStages cfg t m np capture capOut capErr (i + 1) rest (if c.isHere then hs + 1 else hs)
+    let (ch, fed) := specStage cfg c base hs t (hsFail.contains i)
+    let (chs, feds, hs') := specStages cfg t m np capture capOut capErr hsFail (i + 1) rest (if c.isHere ∧ !hsFail.contains i then hs + 1 else hs)
     ((i, ch) :: chs, (match fed with | some f => [f] | none => []) ++ feds, hs')
 
-/-- `pipeFails`: descriptor exhaustion made a `pipe` call fail (reported by the launcher under test); then
-the pipeline must fail cleanly: nothing runs, status non-zero, the shell's table unchanged -/
-def specPipeline (pipeFails : Bool) (cfg : Cfg) (cmds : List Command) (capture bg : Bool) (t : Table) (np : Nat) : Launch :=
-  if pipeFails ∨ (bg ∧ capture) then { shell := t, np := np, failed := true }
+/-- what descriptor exhaustion did to this launch (reported by the launcher under test): the pipes between the
+stages (or the capture pipes) could not be created, or the here-string pipe of some stages could not -/
+structure PipeFailure where
+  upfront : Bool := false
+  stages : List Nat := []
+
+/-- when the pipes cannot be created the pipeline must fail cleanly: nothing runs, status non-zero, the shell's
+table unchanged.  A stage whose here-string pipe cannot be created fails like a stage whose redirection target
+cannot be opened: it is not run (status 1), the other stages are unaffected. -/
+def specPipeline (pf : PipeFailure) (cfg : Cfg) (cmds : List Command) (capture bg : Bool) (t : Table) (np : Nat) : Launch :=
+  if pf.upfront ∨ (bg ∧ capture) then { shell := t, np := np, failed := true }
   else
     let m := cmds.length - 1
     let capOut := np + m
     let capErr := np + m + 1
     let hs0 := if capture then np + m + 2 else np + m
-    let (chs, feds, hs') := specStages cfg t m np capture capOut capErr 0 cmds hs0
+    let (chs, feds, hs') := specStages cfg t m np capture capOut capErr pf.stages 0 cmds hs0
     { shell := t, np := hs', children := chs, fed := feds,
       statusFrom := if bg ∨ cmds = [] then none else some m,
       capOut := if capture then some capOut else none }
@@ -92,7 +100,7 @@ def specPrint (cfg : Cfg) (rs : List Redir) (err : Bool) (t : Table) : Printed :
   | (s, false) => { t := t, target := none, opened := s.opened, failed := true }
   | (s, true) => { t := t, target := ((if err then s.s2 else s.s1).map (·.obj)), opened := s.opened }
 
-def specLauncher (pipeFails : Cfg → List Command → Bool → Bool → Table → Nat → Bool) : Launcher where
+def specLauncher (pipeFails : Cfg → List Command → Bool → Bool → Table → Nat → PipeFailure) : Launcher where
   pipeline := fun cfg cmds capture bg t np => specPipeline (pipeFails cfg cmds capture bg t np) cfg cmds capture bg t np
   print := specPrint
 
